@@ -1714,17 +1714,34 @@ struct Layout {
 #define FN4(f)                                                                 \
   { f<void>, f<uint32_t>, f<uint64_t>, f<E12> }
 
+// The (T, E) configurations a layout runs per graph.  Thorough: the full
+// product Ts x Es.  Quick: for T >= 3 only the edge types void and pod12 (the
+// two extremes of the edge record size) as far as the layout uses them.
+static std::vector<std::pair<int, int>> configs(const Layout& L, bool th) {
+  std::vector<std::pair<int, int>> v;
+  for (int T : L.Ts) {
+    std::vector<int> es;
+    for (int E : L.Es)
+      if (th || T <= 2 || E == 0 || E == 3)
+        es.push_back(E);
+    if (es.empty())
+      es.push_back(L.Es[0]);
+    for (int E : es)
+      v.push_back(std::make_pair(T, E));
+  }
+  return v;
+}
+
 struct Decoded {
   uint64_t gi;
   int T, E;
 };
-static Decoded decode_cfg(const Layout& L, uint64_t idx) {
+static Decoded decode_cfg(const Layout& L, uint64_t idx, bool th) {
+  auto cf = configs(L, th);
   Decoded d;
-  d.E = L.Es[idx % L.Es.size()];
-  idx /= L.Es.size();
-  d.T = L.Ts[idx % L.Ts.size()];
-  idx /= L.Ts.size();
-  d.gi = idx;
+  d.T  = cf[idx % cf.size()].first;
+  d.E  = cf[idx % cf.size()].second;
+  d.gi = idx / cf.size();
   return d;
 }
 
@@ -1732,20 +1749,18 @@ static sx::EnumCase small_case(const Layout& L) {
   sx::EnumCase c;
   c.name  = L.name + " | all multigraphs n<=3 m<=4(quick 3)";
   c.count = [L](bool th) {
-    return small_count(small_maxm(th)) * L.Es.size() * L.Ts.size();
+    return small_count(small_maxm(th)) * configs(L, th).size();
   };
   c.run = [L](uint64_t idx, bool th) {
     rt();
-    Decoded d = decode_cfg(L, idx);
-    static int onlyT = getenv("C11_ONLY_T") ? atoi(getenv("C11_ONLY_T")) : 0; // TEMP
-    if (onlyT && d.T != onlyT) return; // TEMP
+    Decoded d = decode_cfg(L, idx, th);
     Ref r     = small_decode(d.gi, small_maxm(th));
     galois::setActiveThreads(d.T);
     Ctx ctx{r, d.T, ENAMES[d.E], th};
     L.fn[d.E](ctx);
   };
   c.describe = [L](uint64_t idx, bool th) {
-    Decoded d = decode_cfg(L, idx);
+    Decoded d = decode_cfg(L, idx, th);
     Ref r     = small_decode(d.gi, small_maxm(th));
     return ref_str(r) + " E=" + ENAMES[d.E] + " T=" + std::to_string(d.T);
   };
